@@ -547,6 +547,34 @@ Definition ann_offset (parent : option N) (b e : N) : outcome bool :=
   end.
 
 (* ------------------------------------------------------------------ *)
+(* a data set defined more than once (merge mode)                      *)
+
+(* StoreFor::insert finds the id of the second definition in the id map and calls
+   AnnotationDataSet::merge(other): the keys of the other definition are inserted (an existing
+   key id keeps its handle), then its data, unbound, with the key handle mapped to the handle the
+   key has in the receiving set; a data id that exists already is left as it is.  A definition
+   is its list of key ids and its data (data id, key id); a merged set is described the same way. *)
+Record dsdef := { ds_keys : list N; ds_data : list (N * N) }.
+
+Definition has_id (i : N) (l : list (N * N)) : bool := existsb (fun p => fst p =? i) l.
+Definition has_key (k : N) (l : list N) : bool := existsb (N.eqb k) l.
+
+Fixpoint merge_keys (mine other : list N) : list N :=
+  match other with
+  | [] => mine
+  | k :: o => merge_keys (if has_key k mine then mine else mine ++ [k]) o
+  end.
+
+Fixpoint merge_data (mine other : list (N * N)) : list (N * N) :=
+  match other with
+  | [] => mine
+  | d :: o => merge_data (if has_id (fst d) mine then mine else mine ++ [d]) o
+  end.
+
+Definition ds_merge (a b : dsdef) : dsdef :=
+  {| ds_keys := merge_keys (ds_keys a) (ds_keys b); ds_data := merge_data (ds_data a) (ds_data b) |}.
+
+(* ------------------------------------------------------------------ *)
 (* @include                                                            *)
 
 (* TextResourceBuilder::build with "@include": "f.json" and no "text": the file is parsed into
